@@ -64,6 +64,7 @@ class BatchWorld(World):
         cfg = {"level": level, "B": B, "c": c, "resized_from": rc.choice([None, None, 1, 1, 2]) if level in ("neuron", "synapse", "connection", "layer") else None}
         # the neuron batchsz setter resets the neuron itself: half of the resized neuron replicas are used as the setter leaves them
         cfg["clear_after_resize"] = stream(seed, "resize").random() < 0.5
+        cfg["kwfreeze"] = stream(seed, "freeze").random() < 0.5
         T = ro.randint(4, 20 if tier == "thorough" else 14)
         ops = []
         for t in range(T):
@@ -115,10 +116,12 @@ class BatchWorld(World):
         with ctx.impl("build", facts):
             big = neuron_world.WORLD._build(c if not B0 else dict(c, B=B0))
             singles = [neuron_world.WORLD._build(dict(c, B=1)) for _ in range(B)]
+        # adaptation frozen: by eval mode, or (adaptive classes, half of the runs) in training mode by an explicit adapt=False at every step
+        kwfreeze = c["cls"] in ("ALIF", "GLIF2", "Izhikevich", "AdEx") and bool(cfg.get("kwfreeze"))
         for m in [big] + singles:
-            m.eval()        # adaptation frozen
+            m.train(kwfreeze)
         if B0 and B0 != B:
-            self._resize(ctx, facts, big, B, lambda: big(torch.ones((B0,) + tuple(c["shape"])) * 3.0))
+            self._resize(ctx, facts, big, B, lambda: big(torch.ones((B0,) + tuple(c["shape"])) * 3.0, **({"adapt": False} if kwfreeze else {})))
             if cfg.get("clear_after_resize", True):
                 big.clear()
         shape = tuple(c["shape"])
@@ -134,6 +137,8 @@ class BatchWorld(World):
             g = torch.Generator().manual_seed(op["seed"])
             x = (torch.randn((B,) + shape, generator=g) * gap * 1.5 + op["mu"] * gap) / c["R"]
             kw = {"refrac_lock": c["lock"]}
+            if kwfreeze:
+                kw["adapt"] = False
             with ctx.impl("forward", facts):
                 ob = big(x, **kw)
                 os_ = [s(x[b:b + 1].clone(), **kw) for b, s in enumerate(singles)]
